@@ -568,22 +568,25 @@ def oracle_interval(a, cfg, obs):
     if vmin > vmax:
         return None
     vals = [float(v) for v in a["data"]]
+    # the interval map runs in the dtype of the data (float32 stays float32): slack in its ulps
+    rt = 16 * float(np.finfo(a["dtype"]).eps) if a["dtype"] in ("float16", "float32") else TOL
+    mt = rt if a["dtype"] in ("float16", "float32") else MONO_TOL
     fin = [(x, y) for x, y in zip(vals, out) if math.isfinite(x)]
     for x, y in zip(vals, out):
         if (x != x) != (y != y):
             return "NaN handling: input %r -> output %r" % (x, y)
     for x, y in fin:
-        if not (-TOL <= y <= 1 + TOL):
+        if not (-rt <= y <= 1 + rt):
             return "finite datum %r mapped to %r outside [0, 1] (limits %r, %r)" % (x, y, vmin, vmax)
     fin.sort()
     for (x1, y1), (x2, y2) in zip(fin, fin[1:]):
-        if y2 < y1 - MONO_TOL:
+        if y2 < y1 - mt:
             return "not monotone: %r -> %r but %r -> %r (limits %r, %r)" % (x1, y1, x2, y2, vmin, vmax)
     if vmin < vmax:
         for x, y in fin:
-            if x == vmin and abs(y) > TOL:
+            if x == vmin and abs(y) > rt:
                 return "lower limit %r mapped to %r, not 0" % (x, y)
-            if x == vmax and abs(y - 1) > TOL:
+            if x == vmax and abs(y - 1) > rt:
                 return "upper limit %r mapped to %r, not 1" % (x, y)
     return None
 
